@@ -47,7 +47,7 @@ rundemo "$w/clean"; r=$?; [ $r = 99 ] || { [ $r = 0 ] && dc=passes || dc=FAILS; 
 res=""
 for c in $checks; do
   out=$(cd /verif && VERIF_REPO="$w/mut" VERIF_ROOT_OVERRIDE=1 ./check $c $tier 2>&1); rc=$?
-  key=$(echo "$out" | grep -o 'key=[^ ]*' | head -1)
+  key=$(echo "$out" | grep '^violation' | grep -o 'key=[^ ]*' | head -1)
   res="$res $c:exit$rc${key:+($key)}"
 done
 echo "RESULT $name build=$b1 tests=$t1 tests_verif=$t2 demo_with_change=$dm demo_clean=$dc checks:$res"
